@@ -169,6 +169,9 @@ def helpers():
     def implies(a, b):
         return (not a) or bool(b)
 
+    def given(hyps, goal):
+        return (not all(bool(h) for h in hyps)) or bool(goal)
+
     def iff(a, b):
         return bool(a) == bool(b)
 
@@ -187,7 +190,7 @@ def helpers():
         idx = [i for i, m in enumerate(mask) if m]
         rank = {j: k for k, j in enumerate(idx)}
         return len(idx), (lambda k: idx[k]), (lambda j: rank[j])
-    return dict(forall=forall, exists=exists, forall2=forall2, implies=implies, iff=iff, at=at, ite=ite, sort_perm=sort_perm,
+    return dict(forall=forall, exists=exists, given=given, forall2=forall2, implies=implies, iff=iff, at=at, ite=ite, sort_perm=sort_perm,
                 mask_index=mask_index, is_none=lambda x: x is None,
                 spec_db2lin=lambda x: 10 ** (np.asarray(x) / 10) if not np.isscalar(x) else 10 ** (x / 10),
                 spec_lin2db=lambda x: 10 * np.log10(x),
@@ -271,6 +274,8 @@ def run_once(info, inputs):
     old_env = dict(old_vals)
     try:
         for nm, ex in (info.get('let') or {}).items():
+            if 'result' in ex:
+                continue
             env[nm] = eval_clause(ex, ns, env, old_env)
             old_env[nm] = eval_clause(ex, ns, old_env, old_env)
         for nm, ex in info.get('requires') or []:
